@@ -13,6 +13,7 @@ import ClipVerif.Model.Conv
 import ClipVerif.Model.Vertex
 import ClipVerif.Model.Out
 import ClipVerif.Model.Tree
+import ClipVerif.Model.AreaOP
 /-
 Correspondence side of the line protocol: `model <name> …` evaluates a hand model, `gen <fn> …`
 evaluates a generated function; both print the result in a canonical form that the harness
@@ -71,6 +72,10 @@ def model (name : String) (ts : Toks) : String :=
   | "pip", px :: py :: rest =>
     match takePath rest with
     | some (p, []) => toString (Model.pointInPolygon (p64 ⟨px, py⟩) (toP64 p).toArray)
+    | _ => "parse-error"
+  | "areaop", rest =>
+    match takePath rest with
+    | some (p, []) => toString ((Model.areaOP (toP64 p)).toBits.toNat)
     | _ => "parse-error"
   | "strip", closed :: rest =>
     match takePath rest with
@@ -263,6 +268,11 @@ def gen (fn : String) (ts : Toks) : String :=
     | _ => "parse-error"
   | "PerpendicDistFromLineSqr64", [x1, y1, x2, y2, x3, y3] =>
     toString ((PerpendicDistFromLineSqr64 (pt x1 y1) (pt x2 y2) (pt x3 y3)).toBits.toNat)
+  | "PerpendicDistFromLineSqrD", [x1, y1, x2, y2, x3, y3] =>
+    let f (n : Int) : Float := Float.ofBits (UInt64.ofNat n.toNat)
+    toString ((PerpendicDistFromLineSqrD ⟨f x1, f y1⟩ ⟨f x2, f y2⟩ ⟨f x3, f y3⟩).toBits.toNat)
+  | "areaTriangle", [x1, y1, x2, y2, x3, y3] =>
+    toString ((areaTriangle (pt x1 y1) (pt x2 y2) (pt x3 y3)).toBits.toNat)
   | _, _ => "parse-error gen"
 
 end ModelProto
